@@ -1061,6 +1061,8 @@ def call_rotation_ctor(it, fn, args, kwargs, node):
             raise Unsupported(f"from_euler: {len(a.cols)} angle components for sequence {s!r}", node)
         r = Rot(T("euler", const(s), T("vec", *a.cols), const(d)), space=a.space)
         r.euler = (s, list(a.cols), d)
+        # one rotation per row of a table-long (N, k) angle array: row 0 of anything computed from it is the FIRST particle's, not "the only row"
+        r.per_row = a.ndim == 2 and not a.single_row and a.space is not None
         return r
     if fn == "from_matrix":
         m = args[0]
@@ -1788,7 +1790,7 @@ def rot_method(it, r, name, args, kwargs, node):
         # scipy returns (3,) for a single rotation and a single vector, else (N,3)
         single = (a.ndim == 1) and not getattr(r, "batched", False) and r.space is None and not getattr(r, "from_2d", False)
         out = Arr([T("item", res, 0), T("item", res, 1), T("item", res, 2)], 2, _space(r, a))
-        out.single_row = a.single_row or (a.ndim == 1)
+        out.single_row = (a.single_row or (a.ndim == 1)) and not getattr(r, "per_row", False)
         out.rotapply = (m, a)
         return out
     if name == "as_euler":
